@@ -109,15 +109,35 @@ nng_init(const nng_init_params *params)
 
 	init_count++;
 
-	if (
-		((rv = nni_alloc_set(init_params.malloc_fn, init_params.calloc_fn, init_params.free_fn)) != 0) ||
-		((rv = nni_plat_init(&init_params)) != 0) ||
-	    ((rv = nni_taskq_sys_init(&init_params)) != 0) ||
-	    ((rv = nni_reap_sys_init()) != 0) ||
-	    ((rv = nni_aio_sys_init(&init_params)) != 0) ||
-	    ((rv = nni_tls_sys_init()) != 0)) {
+	// Bring up the subsystems in order.  If one of them fails, tear down
+	// only those that were already started (each subsystem cleans up
+	// after itself when its own initialization fails); nng_fini() must
+	// not be used here, as it assumes a fully initialized library.
+	rv = nni_alloc_set(init_params.malloc_fn, init_params.calloc_fn,
+	    init_params.free_fn);
+	if (rv == 0) {
+		rv = nni_plat_init(&init_params);
+	}
+	if (rv == 0) {
+		if ((rv = nni_taskq_sys_init(&init_params)) != 0) {
+			nni_plat_fini();
+		} else if ((rv = nni_reap_sys_init()) != 0) {
+			nni_taskq_sys_fini();
+			nni_plat_fini();
+		} else if ((rv = nni_aio_sys_init(&init_params)) != 0) {
+			nni_reap_sys_fini();
+			nni_taskq_sys_fini();
+			nni_plat_fini();
+		} else if ((rv = nni_tls_sys_init()) != 0) {
+			nni_aio_sys_fini();
+			nni_reap_sys_fini();
+			nni_taskq_sys_fini();
+			nni_plat_fini();
+		}
+	}
+	if (rv != 0) {
+		init_count--;
 		nni_atomic_flag_reset(&init_busy);
-		nng_fini();
 		return (rv);
 	}
 
